@@ -23,7 +23,7 @@ DATE = [0, 1, 1000000000, 2 ** 31 - 1, 2 ** 31, 2 ** 32, 4102444800, 25340230079
 INTERVAL = [0, 1, 86400, 2 ** 31 - 1, 2 ** 31, 2 ** 32 - 1]
 
 # attribute names the library has no value class for (Attribute.read / the value factory refuse them)
-NO_VALUE_CLASS = set()
+NO_VALUE_CLASS = {"Digital Signature Algorithm"}
 
 
 def bytes_of(n, salt=0):
@@ -149,6 +149,8 @@ class Gen(object):
             if f["of"] == "Attribute":
                 return self.attribute(ver, depth)
             return self.obj(f["of"], ver, depth + 1)
+        if k == "attrs":
+            return self.attribute(ver, depth, index=False if ver >= 20 else None)
         if k == "union":
             return self.union(cls, f, ver, depth)
         if k == "attrval":
@@ -199,16 +201,16 @@ class Gen(object):
 # (class, field) -> candidate classes of a union field
 UNIONS = {}
 # (class, field) -> pool of abstract values overriding the kind's pool (list or callable(ver))
-FIELD_POOL = {}
+FIELD_POOL = {("ProtectionStorageMasks", "protection_storage_masks"): [num(x) for x in (1, 2, 3, 0x200, 0x3FFF)]}
 # class -> hook(gen, val, ver, depth) -> val: consistency between fields
 HOOKS = {}
 
 
 def _credential(g, v, ver, depth):
-    cands = [c for c in CRED if class_live(c, ver)]
-    c = g.r.choice(cands)
-    v["credential_type"] = num(CRED[c])
-    v["credential_value"] = g.obj(c, ver, depth + 1)
+    if "credential_value" not in v:
+        cands = [c for c in CRED if class_live(c, ver)]
+        v["credential_value"] = g.obj(g.r.choice(cands), ver, depth + 1)
+    v["credential_type"] = num(CRED[v["credential_value"]["_k"]])
     return v
 
 
@@ -286,6 +288,30 @@ def cases(cls, ver, rng, nrandom=6, boundary=True):
                 for n in (1, 2, 3):
                     fixed = {f["n"]: g.field(cls, f, ver, 0, count=n)}
                     out.append(("len:%s:%d" % (f["n"], n), g.obj(cls, ver, present=set(opt), fixed=fixed)))
+    # every attribute name the version defines, with boundary values of its kind
+    if cls == "Attribute":
+        for name in g.attr_names(ver, False) + ["x-custom", "y-other"]:
+            for j, av in enumerate(attr_values(g, name, ver, rng)):
+                a = {"_k": "Attribute", "attribute_name": list(name.encode("utf-8")), "attribute_value": av}
+                if j % 3 == 1:
+                    a["attribute_index"] = num(j)
+                out.append(("attr:%s:%d" % (name.replace(" ", ""), j), a))
+    for f in fs:
+        if f["k"] == "attr2":
+            for name in g.attr_names(ver, True):
+                for j, av in enumerate(attr_values(g, name, ver, rng)):
+                    out.append(("attr:%s:%d" % (name.replace(" ", ""), j),
+                                g.obj(cls, ver, present=set(opt), fixed={f["n"]: [av] if f["c"] in "*+" else av})))
     for i in range(nrandom):
         out.append(("rnd:%d" % i, g.obj(cls, ver)))
     return out
+
+
+def attr_values(g, name, ver, rng, cap=6):
+    r = B.rule_of(name)
+    if r["k"] == "struct":
+        return [{"_name": name, "v": g.obj(r["of"], ver, 1)} for _ in range(3)]
+    vals = pool(r["k"], r["of"])
+    if len(vals) > cap:
+        vals = vals[:2] + rng.sample(vals[2:], cap - 2)
+    return [{"_name": name, "v": v} for v in vals]
